@@ -191,6 +191,9 @@ def gen_recover(pid, macro, shape, carrier):
                "or": "~<| lv(%d, %s(true, 9))" % (EV, mkf),
                "then": "~-> move |r: %s| { ev(%d); r }" % ("Result<u8, u8>" if res else "Option<u8>", EV)}[shape[1]]
         b0 = "%s(o00, p0) ~=> move |v: u8| %s(o01, v ^ p1) %s" % (mkf, mkf, rec)
+        if len(shape) > 2 and shape[2] == "filter":
+            # the failing step consists of a FILTER only (`Option::filter` turns Some into None): value-level operators can fail a step too
+            b0 = "mo(o00, p0 ^ p1) ~?> move |v: &u8| { ev(%d); o01 } %s" % (EV + 1, rec)
         b1 = "%s(o10, q0)" % mkf
     two = shape[0] == "two"
     text = "%s! {\n        %s%s\n    }" % (macro, b0, (",\n        " + b1) if two else "")
@@ -268,6 +271,12 @@ def programs(tier, seed):
                     if tier == "quick" and macro != "try_join" and (i + seed) % 2:
                         continue
                     hs.append(gen_recover("p%04d" % i, macro, (n_, rec), carrier))
+            if macro != "try_join_async":
+                for rec in ("or_else", "or"):
+                    i += 1
+                    if tier == "quick" and macro != "try_join" and (i + seed) % 2:
+                        continue
+                    hs.append(gen_recover("p%04d" % i, macro, (n_, rec, "filter"), "opt"))
     return hs
 
 
